@@ -785,6 +785,31 @@ theorem fill_effect (p recBase recsize nrecs : Nat) (hp : 1 ≤ p) (elem : FVar 
     · exact Or.inl ⟨hnr, hin'.1, hin'.2⟩
     · exact Or.inr ⟨hir, recno, hrn, hin'.1, hin'.2⟩
 
+/-! ### `_FillValue` rules -/
+
+/-- **fillvalue_rule_path_independent**: whether an attribute may become a variable's `_FillValue` (and the error
+    code if not) does not depend on the API that delivers it — put_att (flexible or typed), def_var_fill,
+    copy_att between two files (same or different variable id), copy_att between two variables of one file,
+    rename_att — the only exemption is copying an attribute onto itself. -/
+theorem fillvalue_rule_path_independent (p q : FvPath) (hp : p ≠ .copyAtt true true) (hq : q ≠ .copyAtt true true)
+    (varType attType nelems : Nat) (isOld : Bool) :
+    fvAccept p varType attType nelems isOld = fvAccept q varType attType nelems isOld := by
+  have h : ∀ r : FvPath, r ≠ .copyAtt true true → fvAccept r varType attType nelems isOld = fvRule varType attType nelems isOld := by
+    intro r hr
+    cases r with
+    | copyAtt a b => cases a <;> cases b <;> first | rfl | exact absurd rfl hr
+    | _ => rfl
+  rw [h p hp, h q hq]
+
+/-- an accepted `_FillValue` has the variable's type, one element, and a variable defined in this define mode -/
+theorem fvRule_accept_iff (varType attType nelems : Nat) (isOld : Bool) :
+    fvRule varType attType nelems isOld = 0 ↔ attType = varType ∧ nelems = 1 ∧ isOld = false := by
+  unfold fvRule
+  by_cases h1 : attType = varType <;> by_cases h2 : nelems = 1 <;> cases isOld <;> simp [h1, h2]
+
+example : fvAccept (.copyAtt false true) 4 4 1 true = -122 ∧ fvAccept (.copyAtt true false) 3 4 1 false = -45 ∧
+          fvAccept .renameAtt 4 4 2 false = -36 ∧ fvAccept .putAtt 4 4 1 false = 0 := by decide
+
 /-! ### fill-mode bookkeeping -/
 
 /-- after `ncmpi_set_fill(mode)` every variable defined so far is in that mode -/
@@ -831,6 +856,7 @@ def obligations : List String := [
   "segOf_within", "plan_targets_new_only", "plan_avoids", "nofill_no_segment", "plan_covers", "plan_monotone",
   "fillPlanD_fst", "fillPlanD_snd", "fill_effect",
   "fillRec_covers", "fillRecNumrecs_ge", "fill_bytes_default", "fillBuf_length", "planBuf_length",
+  "fillvalue_rule_path_independent", "fvRule_accept_iff",
   "setFill_all", "defVar_inherits", "varFill_only", "setFill_then_defs"
 ]
 end PnVerif.Props.C16
